@@ -1,5 +1,6 @@
 import OlVerif.Lower.Stmt
 import OlVerif.Order.Proof
+import OlVerif.Sem.Module
 namespace OlVerif.C01
 
 /-- the arguments of a chain of calls `f(a0)(a1)...(an)`, in evaluation order -/
@@ -40,5 +41,70 @@ theorem straight_line_effects (ρ : Expr → Bool) (cfg : Cfg) (root : SymScope)
     (hok : ∀ p ∈ ps, p.ok) (e : Expr) (h : lowerFull cfg root (ps.map PStmt.toStmt) = .ok e) :
     tr ρ e = PStmt.orders ps :=
   program_order ρ cfg root ps hok e h
+
+
+/-! ### value-level semantics (M-EVAL) -/
+open OlVerif.Sem in
+/-- **Straight-line module code means the same after conversion, for every world.**  Take any user
+    state and value types, any meaning of the expression forms M-EVAL does not fix (calls, operators,
+    lambdas, comprehensions, ... - `W.eval`) and any meaning of the primitive operations (binding a
+    global name, attribute and item access, the in-place operators).  For a module made of expression
+    statements, `pass`, `global`, assignments with any number of name / attribute / subscript
+    targets and augmented assignments on such targets, whose expressions do not mention `__ol_`
+    names: whenever the script runs from user state `u` to `u'`, the converted expression evaluates
+    from `u` to `u'` - under both wrappers, with the helper variables it creates (`t'`) kept apart
+    from the user state.  Control flow around such statements is C05's theorem, functions / classes /
+    imports are not covered at value level. -/
+theorem module_straightline_semantics {U V : Type} (W : World U V) (cfg : Cfg) (root : SymScope) (body : List Stmt)
+    (hs : ∀ s ∈ body, SimpleS s) (e : Expr) (h : lowerFull cfg root body = .ok e) {u u' : U} (hx : ExecB W body u u') :
+    ∃ v t', Ev W e u [] v u' t' :=
+  module_sim W cfg root body hs e h hx
+
+open OlVerif.Sem in
+/-- an expression free of helper names neither reads nor writes helper variables (proved, not assumed) -/
+theorem helper_variables_are_invisible {U V : Type} (W : World U V) {e : Expr} {u u' : U} {t t' : T V} {v : V}
+    (h : Ev W e u t v u' t') (hc : Clean e) : t' = t ∧ ∀ t2 : T V, Ev W e u t2 v u' t2 :=
+  frame W h hc
+
+/-- at module level the expression transformer is the identity -/
+theorem module_level_expressions_unchanged (n : Nsp) (hn : n.kind = .module) (b : List String) (e e' : Expr)
+    (h : transf n b e = .ok e') : e' = e :=
+  transf_module_id n hn b e e' h
+
+namespace Ex
+open OlVerif.Sem
+/-- non-vacuity: integers, globals as an association list, `+=` on integers -/
+def W : World (List (String × Int)) Int where
+  eval := fun e u => match e with
+    | .name x => (u.lookup x).map (·, u)
+    | _ => none
+  const := fun c => match c with | .int n => n | _ => 0
+  store := fun x v u => (x, v) :: u
+  getattr := fun _ _ _ => none
+  setattr := fun _ _ _ _ => none
+  getitem := fun _ _ _ => none
+  setitem := fun _ _ _ _ => none
+  iop := fun op a b u => match op with | .add => some (a + b, u) | _ => none
+  listOf := fun _ => 0
+  noneV := 0
+  runner := 0
+
+/-- `x = 1; x += 2` -/
+def prog : List Stmt := [.assign [.name "x"] (.const (.int 1)), .augAssign (.name "x") .add (.const (.int 2))]
+
+theorem prog_simple : ∀ s ∈ prog, SimpleS s := by
+  intro s hs
+  simp only [prog, List.mem_cons, List.mem_nil_iff, or_false] at hs
+  rcases hs with rfl | rfl
+  · exact .assign _ _ (by simp) (fun t ht => by simp at ht; subst ht; exact .name "x") (.const _)
+  · exact .aug _ _ _ (.name "x") (.const _)
+
+theorem prog_runs : ExecB W prog [] [("x", 3), ("x", 1)] :=
+  .cons (.assign _ _ (.const _ _ _) (.cons (.name "x" _ _ (by decide)) (.nil _ _)))
+    (.cons (.augName "x" .add _ (by decide) (.user _ _ (by decide) rfl) (.const _ _ _) rfl) (.nil _))
+
+example : ∃ e, lowerFull {} default prog = .ok e ∧ ∃ v t', Ev W e [] [] v [("x", 3), ("x", 1)] t' :=
+  ⟨_, rfl, module_straightline_semantics W {} default prog prog_simple _ rfl prog_runs⟩
+end Ex
 
 end OlVerif.C01
